@@ -257,4 +257,16 @@ Definition l_end (l : altarc) : altarc :=
       let b' := vsum (fst (nth 1 dl (vzero, vzero))) (fst (nth 0 dl (vzero, vzero))) :: map fst (tl (tl dl)) in
       mkAlt (a_end (l_a l)) (l_n l) (b' ++ [vzero]) vzero (l_qs l) d tot (l_T l)
   end.
+
+(* one operation on a stand-alone AltQueueArc / DecayArcAlt (pulls are not supported by the class) *)
+Definition alt_do (l : altarc) (s : S) (o : aop) : altarc * S * vqip :=
+  match o with
+  | APush v f time => l_send_push l s v f time
+  | APull _ _ => (l, s, vzero)
+  | APushCheck ov => (l, s, a_excess_push (l_a l) s ov)
+  | APullCheck ov => (l, s, a_excess_pull (l_a l) s ov)
+  | AEnd => (l_end l, s, vzero)
+  | ADs => let '(l', d) := l_ds l in (l', s, d)
+  | ASetT T => (l_set_T l T, s, vzero)
+  end.
 End Ports.
